@@ -1656,7 +1656,14 @@ class zip(Stream):
             self._release_refs(md)
             return ret
         elif len(L) > self.maxsize:
-            return self.condition.wait()
+            return self._wait_for_room(L)
+
+    @gen.coroutine
+    def _wait_for_room(self, L):
+        # every tuple that is formed wakes all waiters; each one must look
+        # again, or several blocked producers are released for a single slot
+        while len(L) > self.maxsize:
+            yield self.condition.wait()
 
 
 @Stream.register_api()
